@@ -563,3 +563,15 @@ def same_value(a, b):
             return True
         return None
     return a == b
+
+
+class QForall:
+    """universally quantified integer-indexed fact  forall j. body(j), kept as a
+    Python function so that it is instantiated explicitly (at the skolem constants
+    of the obligations) instead of being handed to the solver as a quantifier.
+    Obliged: body(fresh skolem) must be valid.  Assumed: body(t) is added for every
+    registered index term t (sound: instances of a universally quantified assumption)."""
+
+    def __init__(self, body, name='q'):
+        self.body = body
+        self.name = name
